@@ -699,6 +699,17 @@ class Interp:
             if isinstance(cur, str) and isinstance(rhs, str) and isinstance(op, ast.Add):
                 fr.env[st.target.id] = cur + rhs
                 return
+            if isinstance(cur, list) and isinstance(op, ast.Add):
+                # `lst += it` extends the same list object
+                cur.extend(self.iterate(rhs, st, fr))
+                return
+            if isinstance(cur, set) and isinstance(op, ast.BitOr) and isinstance(rhs, (set, frozenset)):
+                cur.update(rhs)
+                return
+            if isinstance(cur, dict) and isinstance(op, ast.BitOr) and isinstance(rhs, dict):
+                self.check_owned_container(cur, st, fr, "update")
+                cur.update(rhs)
+                return
             r = self.binop(op, cur, rhs, st)
             if isinstance(r, TV) and isinstance(cur, TV):
                 r.fresh = cur.fresh if cur.rank != 0 else True
@@ -1833,6 +1844,21 @@ class Interp:
                 return r
             raise self.err(n, f"library call {name} is not in the alias table")
         out_target = None
+        if kwargs and "dtype" in kwargs and lib == "numpy":
+            dt = kwargs["dtype"]
+            floaty = dt is None or dt is float or (isinstance(dt, Builtin) and dt.name == "float") or \
+                (isinstance(dt, ExtMod) and dt.name.split(".")[-1] in ("float64", "double", "float_", "floating")) or \
+                (isinstance(dt, str) and dt in ("float", "float64", "f8", "d"))
+            if not floaty:
+                raise self.err(n, f"dtype {dt!r} of {name} is not modelled (only float64)")
+            kwargs = {k: v for k, v in kwargs.items() if k != "dtype"}  # values are reals already
+        if kwargs and "copy" in kwargs and lib == "numpy" and canon in ("ident", "copy"):
+            cp = kwargs["copy"]
+            kwargs = {k: v for k, v in kwargs.items() if k != "copy"}
+            if cp is True:
+                canon = "copy"
+            elif cp in (False, None) and fn_ in ("array", "asarray"):
+                canon = "ident"
         if kwargs:
             if set(kwargs) == {"out"} and lib == "numpy":
                 out_target = kwargs["out"]
